@@ -74,6 +74,10 @@ type SimContext struct {
 	WorkCapAfter int64
 	RunawayWork  bool
 	RunawayStack []string // innermost first
+	// InstrWorkCap > 0: an instruction that does more work units than this,
+	// cancelled or not, is interrupted the same way (runaway protection for
+	// runs in which no cancellation is planned).
+	InstrWorkCap int64
 
 	// Mutual-exclusion monitor (concurrency simulation only).
 	ownerTask, ownerOp int
@@ -227,10 +231,19 @@ func Work() {
 	if c == nil {
 		return
 	}
+	if c.RunawayWork {
+		// already interrupted: the clean-up code that runs while the panic
+		// unwinds (deferred functions of the library) must not be hit again
+		return
+	}
 	c.Work++
 	c.workInInstr++
 	if c.workInInstr > c.MaxInInstr {
 		c.MaxInInstr = c.workInInstr
+	}
+	if c.InstrWorkCap > 0 && c.workInInstr > c.InstrWorkCap {
+		c.RunawayWork = true
+		panic(RunawayWorkPanic)
 	}
 	if c.fired {
 		c.WorkAfter++
